@@ -135,15 +135,18 @@ theorem accept_iff_same_block (g : Graph) (c : Cont) (k b : Nat)
     · have : (kindOf g k != c.info.item) = true := by simpa using hk
       simp [this, hk]
 
-/-- source lists: `append(item)` succeeds iff the item's id occurs in the block's source tree -/
+/-- source lists: `append(item)` succeeds iff the item's id occurs in the block's source tree **and** the item is
+that very object of the tree (not merely a source with the same id, e.g. of an id-keeping copy of the block) -/
 theorem accept_source_iff_in_tree (g : Graph) (c : Cont) (k b : Nat)
     (hf : c.info.flavour = .sourceLink) (hb : c.block = some b) :
-    (∃ g', contAppend g c (.ent k) = .ok g') ↔ ∃ id, g.entityId k = some id ∧ inSourceTree g b id = true := by
+    (∃ g', contAppend g c (.ent k) = .ok g') ↔
+      ∃ id, g.entityId k = some id ∧ inSourceTree g b id = true ∧ inSourceTreeObj g b k = true := by
   unfold contAppend
   simp only [hf, hb]
   cases hid : g.entityId k with
   | none => simp
-  | some id => by_cases ht : inSourceTree g b id = true <;> simp [ht]
+  | some id =>
+    by_cases ht : inSourceTree g b id = true <;> by_cases ho : inSourceTreeObj g b k = true <;> simp [ht, ho]
 
 /-- multi-tag `positions` / `extents`: the assignment succeeds iff the item is a DataArray and
 the node stored under its name in the multi-tag's block is that very node -/
